@@ -56,7 +56,11 @@ pub fn from_value(value: &Value) -> Result<ConnectorRef, Error> {
     if name == "deny" {
         bail!("connector name \"deny\" is reserved")
     }
-    let tname = value.get("type").unwrap_or(name).as_str().unwrap();
+    let tname = value
+        .get("type")
+        .unwrap_or(name)
+        .as_str()
+        .ok_or_else(|| err_msg("connector name and type must be strings"))?;
     match tname {
         "direct" => direct::from_value(value),
         "http" => http::from_value(value),
